@@ -42,6 +42,8 @@ Cases ==
   \cup [g : {"later"}, pos : 1..3, sel : 0..3]         \* failing condition at pos; first truthy at sel (0: none)
   \cup [g : {"case"}, s : 1..Len(SU), w1 : 1..Len(WhenLists), w2 : 1..Len(WhenLists), els : BOOLEAN]
   \cup [g : {"nest"}, v1 : 1..NCU, v2 : 1..NCU]
+  \* a complete nested block inside a later clause, followed by more content of that clause
+  \cup [g : {"tail"}, v1 : {1, 3, 4}, v2 : {2, 3, 5}, inner : {"if", "unless", "for", "case"}, outer : {"if", "case"}]
 
 Branches(x) == [i \in 1..x.n |-> [c |-> Var(CN(i)), body |-> Mark(i)]]
                \o (IF x.els THEN <<[c |-> ElseC, body |-> Mark(4)]>> ELSE <<>>)
@@ -60,6 +62,17 @@ ProgOf(x) ==
              whens |-> << [vals |-> [i \in 1..Len(WhenLists[x.w1]) |-> Lit(SU[WhenLists[x.w1][i]])], body |-> Mark(1)],
                           [vals |-> [i \in 1..Len(WhenLists[x.w2]) |-> Lit(SU[WhenLists[x.w2][i]])], body |-> Mark(2)] >>
                           \o (IF x.els THEN <<[else |-> TRUE, vals |-> <<>>, body |-> Mark(4)]>> ELSE <<>>)] >>
+    [] x.g = "tail" ->
+         LET innerNode ==
+               CASE x.inner = "if" -> [t |-> "if", branches |-> <<[c |-> Var(CN(2)), body |-> Mark(3)]>>]
+                 [] x.inner = "unless" -> [t |-> "if", neg |-> TRUE, branches |-> <<[c |-> Var(CN(2)), body |-> Mark(3)]>>]
+                 [] x.inner = "for" -> [t |-> "for", tag |-> "for", var |-> <<105>>, coll |-> [t |-> "range", a |-> Lit(IntV(1)), b |-> Lit(IntV(2))], body |-> Mark(3)]
+                 [] x.inner = "case" -> [t |-> "case", e |-> Var(CN(2)), pre |-> <<>>, whens |-> <<[vals |-> <<Lit(Bool(TRUE))>>, body |-> Mark(3)]>>]
+             later == <<T(<<60>>), innerNode, T(<<62>>)>>
+         IN  IF x.outer = "if"
+             THEN << [t |-> "if", branches |-> <<[c |-> Var(CN(1)), body |-> Mark(1)], [c |-> ElseC, body |-> later]>>] >>
+             ELSE << [t |-> "case", e |-> Var(CN(1)), pre |-> <<>>,
+                      whens |-> <<[vals |-> <<Lit(Bool(TRUE))>>, body |-> Mark(1)], [else |-> TRUE, vals |-> <<>>, body |-> later]>>] >>
     [] x.g = "nest" ->
          << [t |-> "if", branches |-> <<
                [c |-> Var(CN(1)), body |-> << T(<<60>>),
@@ -72,7 +85,7 @@ EnvOf2(x) ==
     [] x.g = "dual" -> << <<CN(1), CU[x.v1]>> >>
     [] x.g = "later" -> <<>>
     [] x.g = "case" -> << <<<<115>>, SU[x.s]>> >>
-    [] x.g = "nest" -> << <<CN(1), CU[x.v1]>>, <<CN(2), CU[x.v2]>> >>
+    [] x.g \in {"nest", "tail"} -> << <<CN(1), CU[x.v1]>>, <<CN(2), CU[x.v2]>> >>
 
 \* ------------------------------------------------ declarative expectation
 Tr(i) == i \notin FalsyIdx
@@ -94,6 +107,13 @@ Decl(x) ==   \* [status, out]
     [] x.g = "case" ->
          [status |-> "ok", out |-> IF WMatch(x.w1, x.s) THEN M(1) ELSE IF WMatch(x.w2, x.s) THEN M(2)
                                    ELSE IF x.els THEN M(4) ELSE <<>>]
+    [] x.g = "tail" ->
+         LET first == IF x.outer = "if" THEN Tr(x.v1) ELSE x.v1 = 3           \* case: subject == true
+             innerOut == CASE x.inner = "if" -> IF Tr(x.v2) THEN M(3) ELSE <<>>
+                           [] x.inner = "unless" -> IF Tr(x.v2) THEN <<>> ELSE M(3)
+                           [] x.inner = "for" -> M(3) \o M(3)
+                           [] x.inner = "case" -> IF x.v2 = 3 THEN M(3) ELSE <<>>
+         IN  [status |-> "ok", out |-> IF first THEN M(1) ELSE <<60>> \o innerOut \o <<62>>]
     [] x.g = "nest" ->
          [status |-> "ok", out |-> IF Tr(x.v1) THEN <<60>> \o (IF Tr(x.v2) THEN M(1) ELSE M(2)) \o <<62>>
                                    ELSE IF Tr(x.v2) THEN <<>> ELSE M(3)]
@@ -118,6 +138,7 @@ IdOf(x) ==
     [] x.g = "dual" -> "dual-" \o ToString(x.v1)
     [] x.g = "later" -> "later-" \o ToString(x.pos) \o "-" \o ToString(x.sel)
     [] x.g = "case" -> "case-" \o ToString(x.s) \o "-" \o ToString(x.w1) \o "-" \o ToString(x.w2) \o "-" \o ToString(x.els)
+    [] x.g = "tail" -> "tail-" \o ToString(x.v1) \o "-" \o ToString(x.v2) \o "-" \o x.inner \o "-" \o x.outer
     [] x.g = "nest" -> "nest-" \o ToString(x.v1) \o "-" \o ToString(x.v2)
 EmitCase == st.status # "run" =>
               PrintT(ToJson([id |-> IdOf(c), kind |-> "render", prog |-> ProgOf(c), env |-> EnvOf2(c)]))
